@@ -124,11 +124,13 @@ Record cobs := mkcobs {
   o_fp_same : bool;          (* operations, types, factory objects, requests, decoded replies equal the uncached client's *)
   o_reply_cached : bool }.   (* an invocation touched the cache or changed the directory *)
 
-Definition pair_mem (k : kind) (p : N) (l : list (kind * N)) : bool :=
-  existsb (fun x => kind_eqb (fst x) k && N.eqb (snd x) p) l.
+(* (class, policy, time): a client of that class and policy found nothing usable and stored
+   everything it loaded at that time *)
+Definition warm_at (k : kind) (p : N) (d t : Z) (l : list (kind * N * Z)) : bool :=
+  existsb (fun x => kind_eqb (fst (fst x)) k && N.eqb (snd (fst x)) p && fresh d (snd x) t) l.
 
-(* a client warms the cache for its own (class, policy) when that combination stores anything:
-   documents under policy 0, the WSDL object under policy 1 in an object cache *)
+(* which (class, policy) combinations store anything: documents under policy 0, the WSDL object
+   under policy 1 in an object cache *)
 Definition warms (k : kind) (pol : N) : bool :=
   match k with
   | KPx => N.eqb pol 0 || N.eqb pol 1
@@ -136,7 +138,9 @@ Definition warms (k : kind) (pol : N) : bool :=
   | KGcf => false
   end.
 
-Definition cobs_ok (warm : list (kind * N)) (o : cop) (b : option cobs) : bool :=
+(* "A client built over a warm cache ... fetches nothing": when an earlier client of the same
+   class and policy stored everything and that is still fresh for this client's duration *)
+Definition cobs_ok (warm : list (kind * N * Z)) (t : Z) (o : cop) (b : option cobs) : bool :=
   match o, b with
   | CClient k d pol unwrap, Some c =>
       match o_out c with
@@ -144,20 +148,27 @@ Definition cobs_ok (warm : list (kind * N)) (o : cop) (b : option cobs) : bool :
       | CRaise => false
       end
       && o_fp_same c && negb (o_reply_cached c) && negb (o_transport c)
-      && (if pair_mem k pol warm then match o_fetched c with [] => true | _ => false end else true)
+      && (if warm_at k pol d t warm then match o_fetched c with [] => true | _ => false end else true)
   | CClient _ _ _ _, None => false
   | _, _ => true
   end.
 
-Fixpoint cspec_run (warm : list (kind * N)) (h : list cop) (obs : list (option cobs)) : bool :=
+Fixpoint cspec_run (w : world) (warm : list (kind * N * Z)) (t : Z) (h : list cop) (obs : list (option cobs))
+  : bool :=
   match h, obs with
   | [], [] => true
   | o :: h', b :: obs' =>
-      cobs_ok warm o b &&
-      cspec_run (match o with
-                 | CClient k d pol _ => if warms k pol then (k, pol) :: warm else warm
-                 | _ => []                      (* entries damaged / removed / possibly expired *)
-                 end) h' obs'
+      cobs_ok warm t o b &&
+      match o with
+      | CClient k d pol _ =>
+          let all := match b with
+                     | Some c => list_eqb N.eqb (o_fetched c) (w_docs w)
+                     | None => false
+                     end in
+          cspec_run w (if warms k pol && all then (k, pol, t) :: warm else warm) t h' obs'
+      | CAdvance d => cspec_run w warm (t + d)%Z h' obs'
+      | _ => cspec_run w [] t h' obs'          (* entries damaged / removed by hand *)
+      end
   | _, _ => false
   end.
 
@@ -208,4 +219,4 @@ Definition c11_client_agrees (c : ccase) : bool :=
     (c_obs c).
 
 Definition c11_client_spec_ok (c : ccase) : bool :=
-  cspec_run [] (c_ops c) (map fst (c_obs c)).
+  cspec_run (c_world c) [] 0%Z (c_ops c) (map fst (c_obs c)).
